@@ -1289,6 +1289,11 @@ class cmap_format_12_or_13(CmapSubtable):
             cmap[code] = gid
 
         charCodes.sort()
+        if not charCodes:
+            # an empty subtable: just the header, with no groups
+            return struct.pack(
+                ">HHLLL", self.format, self.reserved, 16, self.language, 0
+            )
         index = 0
         startCharCode = charCodes[0]
         startGlyphID = cmap[startCharCode]
@@ -1561,7 +1566,8 @@ class cmap_format_14(CmapSubtable):
                 defRecs = []
                 for defEntry in defList:
                     cnt += 1
-                    if (lastUV + cnt) != defEntry:
+                    # additionalCount is a uint8: a range holds at most 256 values
+                    if (lastUV + cnt) != defEntry or cnt > 255:
                         rec = struct.pack(">3sB", cvtFromUVS(lastUV), cnt - 1)
                         lastUV = defEntry
                         defRecs.append(rec)
